@@ -144,6 +144,9 @@ class Gen:
             if p not in by:
                 by[p] = []
                 order.append(p)
+            elif not self.single:
+                continue      # several subscribers: a node set twice in one Message can leave a filter after entering it, which
+                              # forces a flush whose effect on the OTHER subscribers depends on the unmodelled notification order
             by[p].append("%s=%d" % (p, rng.randrange(0, 10)))
         items = [it for p in order for it in by[p]]
         fl = rng.choice([0, 0, 0, 0, 0, 1, 2, 3]) | (4 if rng.random() < 0.08 else 0) | (16 if rng.random() < 0.35 else 0)
